@@ -127,14 +127,14 @@ theorem readBinsLoopCsi_bins (metaId : Nat) (ix : Binned) (bins : Bins) :
     exact ih _ _ md k r hnd (fun x hx => hwf x (List.mem_cons_of_mem _ hx))
       (fun x hx => hfs x (List.mem_cons_of_mem _ hx))
 
-theorem metaIdCsi_lt (depth : Nat) (h : depth ≤ 9) : metaIdCsi depth < 2^32 := by
+theorem metaIdCsi_lt (depth : Nat) (h : depth ≤ 10) : metaIdCsi depth < 2^32 := by
   unfold metaIdCsi
-  have h1 : 8^(depth+1) ≤ 8^10 := Nat.pow_le_pow_right (by decide) (by omega)
-  have h2 : 8^(depth+1) / 7 ≤ 8^10 / 7 := Nat.div_le_div_right h1
-  have h3 : 8^10 / 7 + 1 < 2^32 := by decide
+  have h1 : 8^(depth+1) ≤ 8^11 := Nat.pow_le_pow_right (by decide) (by omega)
+  have h2 : 8^(depth+1) / 7 ≤ 8^11 / 7 := Nat.div_le_div_right h1
+  have h3 : 8^11 / 7 + 1 < 2^32 := by decide
   omega
 
-theorem decRefCsi_rt (depth : Nat) (hd : depth ≤ 9) (ref : RefCsi) (h : ref.WF depth) (r : Bytes) :
+theorem decRefCsi_rt (depth : Nat) (hd : depth ≤ 10) (ref : RefCsi) (h : ref.WF depth) (r : Bytes) :
     decRefCsi depth (encRefCsi depth ref ++ r) = .ok (rewriteRef ref, r) := by
   obtain ⟨hb, hl, hm, hi⟩ := h
   unfold decRefCsi encRefCsi
@@ -196,19 +196,23 @@ theorem decU8_rt (n : Nat) (h : n < 256) (r : Bytes) : decU8 (le 4 n ++ r) = .ok
   simp [h]
 
 theorem decCsi_prefix (ms d : Nat) (hdr : Option Header) (refs : List RefCsi)
-    (hms : ms < 256) (hd : d ≤ 9)
+    (hg : validGeometry ms d = true)
     (hh : ∀ h, hdr = some h → h.WF ∧ (encHeader h).length < 2^31)
     (hl : refs.length < 2^31) (hr : ∀ r ∈ refs, r.WF d) (tail : Bytes) :
     decCsi (csiMagic ++ (le 4 ms ++ (le 4 d ++ (encAux hdr ++
         (le 4 refs.length ++ ((refs.map (encRefCsi d)).flatten ++ tail))))))
       = .ok (⟨ms, d, hdr, refs.map rewriteRef, (decUnplaced tail).1⟩, (decUnplaced tail).2) := by
+  have hg' := hg
+  simp only [validGeometry, Bool.and_eq_true, decide_eq_true_eq] at hg'
+  obtain ⟨⟨hms0, hsum⟩, hd⟩ := hg'
+  have hms : ms < 256 := by omega
   unfold decCsi
   rw [decMagic_rt]
   simp only
   rw [decU8_rt ms hms]
   simp only
   rw [decU8_rt d (by omega)]
-  simp only
+  simp only [hg, not_true_eq_false, if_false]
   rw [decAux_rt hdr hh]
   simp only
   rw [i32nn_le _ hl]
@@ -218,30 +222,30 @@ theorem decCsi_prefix (ms d : Nat) (hdr : Option Header) (refs : List RefCsi)
 
 theorem readCsi_rt_some (ix : CsiIndex) (h : ix.WF) (n : Nat) (hu : ix.unplaced = some n)
     (rest : Bytes) : readCsi (encCsi ix ++ rest) = .ok (rewriteCsi ix, rest) := by
-  obtain ⟨h1, h2, h3, h4, h5, h6⟩ := h
+  obtain ⟨h1, h3, h4, h5, h6⟩ := h
   have hn : n < 2^64 := by rw [hu] at h6; exact h6
   unfold readCsi
   apply wrapInvalid_ok
   unfold encCsi
   simp only [List.append_assoc]
-  rw [decCsi_prefix ix.minShift ix.depth ix.header ix.refs h1 h2 h3 h4 h5, hu,
+  rw [decCsi_prefix ix.minShift ix.depth ix.header ix.refs h1 h3 h4 h5, hu,
     decUnplaced_some n hn]
   simp [rewriteCsi, hu]
 
 theorem readCsi_rt_none (ix : CsiIndex) (h : ix.WF) (hu : ix.unplaced = none) :
     readCsi (encCsi ix) = .ok (rewriteCsi ix, []) := by
-  obtain ⟨h1, h2, h3, h4, h5, _⟩ := h
+  obtain ⟨h1, h3, h4, h5, _⟩ := h
   unfold readCsi
   apply wrapInvalid_ok
   unfold encCsi
-  rw [decCsi_prefix ix.minShift ix.depth ix.header ix.refs h1 h2 h3 h4 h5, hu]
+  rw [decCsi_prefix ix.minShift ix.depth ix.header ix.refs h1 h3 h4 h5, hu]
   have := decUnplaced_nil
   rw [List.append_nil] at this
   rw [this]
   simp [rewriteCsi, hu]
 
 theorem guardCsi_of_WF (ix : CsiIndex) (h : ix.WF) : guardCsi ix = true := by
-  obtain ⟨_, _, h3, h4, h5, _⟩ := h
+  obtain ⟨_, h3, h4, h5, _⟩ := h
   unfold guardCsi
   simp only [Bool.and_eq_true, decide_eq_true_eq, List.all_eq_true]
   refine ⟨⟨?_, h4⟩, ?_⟩
